@@ -32,6 +32,10 @@ ASSUMPTIONS = [
     "coincidence pairs (kind 'co/<point>/<relation>'): the second rectangle is built from the first by Geometry/RectCoincide.v::coincide "
     "(shared centre / ll / ur / lr / ul corner x same shape / same area other shape / transposed / same width / same height / same "
     "perimeter / same aspect ratio); the correspondence also requires the generated rectangle to equal the model's construction",
+    "near-equal region names (kind 'rg/<class>/<how>'): the two names of a pair are valid region names (identifiers or '#') that differ "
+    "only in letter case, by a trailing / leading underscore or digit, by one being a prefix of the other, '_' vs '__' vs '#', "
+    "look-alike characters, the last of 65 characters; the model compares region names by String.eqb (Geometry/RectCoincide.v: "
+    "near_names_distinct, inter_region_differs, req_region_differs), the correspondence also requires near_distinct of the two names",
 ]
 
 OPS = ["ov", "overlap", "inside", "touches", "inter", "eq", "pt", "split_h", "split_v",
@@ -160,6 +164,68 @@ def gen_coincide(rng, idx):
     if rng.random() < 0.5:
         case["r"], case["s"] = case["s"], case["r"]
         co["from"] = "s"
+    return case
+
+
+# near-equal region names: pairs of DIFFERENT valid region names (identifier or '#') that a sloppy comparison would identify
+NEAR = [("case", "dsp", "DSP"), ("case", "A", "a"), ("case", "Bram", "BRAM"), ("case", "r_X1", "r_x1"), ("case", "dsp", "Dsp"),
+        ("case", "_a", "_A"), ("case", "dSP1", "Dsp1"),
+        ("trail_", "dsp", "dsp_"), ("trail_", "_", "__"), ("trail_", "__", "___"), ("trail_", "bram_", "bram__"),
+        ("digit", "dsp", "dsp1"), ("digit", "dsp1", "dsp2"), ("digit", "dsp1", "dsp10"), ("digit", "dsp1", "dsp01"),
+        ("digit", "r_1", "r_11"), ("digit", "dsp0", "dsp"),
+        ("prefix", "dsp", "ds"), ("prefix", "d", "ds"), ("prefix", "bram", "bram_0"), ("prefix", "dsp", "dspdsp"),
+        ("lead_", "_dsp", "dsp"), ("lead_", "_1", "_"), ("lead_", "__dsp", "_dsp"),
+        ("ground", "#", "_"), ("ground", "#", "__"), ("ground", "_", "ground"), ("ground", "_", "_0"), ("ground", "#", "blockage"),
+        ("inner_", "r_1", "r__1"), ("inner_", "r_1", "r1"),
+        ("alike", "dsp0", "dspO"), ("alike", "r_l", "r_1"), ("alike", "dsp", "dps"), ("alike", "dsp", "bsp"), ("alike", "lut", "Iut"),
+        ("long", "r" * 64 + "a", "r" * 64 + "b"), ("long", "r" * 64, "r" * 65), ("long", "Region_" * 9 + "x", "region_" * 9 + "x"),
+        ("long", "a" * 31 + "_" + "b" * 32, "a" * 32 + "_" + "b" * 31)]
+REGION_OPS = ["inter", "inter", "eq", "ov", "overlap", "inside", "touches", "bbox", "split_h", "split_v", "split", "grid", "hist"]
+
+
+def near_variants(name):
+    """valid region names close to `name` and different from it"""
+    import re
+    c = [name.swapcase(), name.upper(), name.capitalize(), name + "_", name + "1", name + "0", "_" + name, name[:-1],
+         name[:-1] + "_", name + name]
+    c += {"#": ["_", "__", "blockage"], "_": ["#", "__", "_0", "ground"]}.get(name, [])
+    c += [a if b == name else b for _, a, b in NEAR if name in (a, b)]
+    return sorted({v for v in c if v != name and (v == "#" or re.fullmatch("[A-Za-z_][A-Za-z0-9_]*", v))})
+
+
+def overlapping(rng, r):
+    """a second rectangle with a positive common area with r"""
+    while True:
+        kind, s, _ = related(rng, r)
+        if common_area(r, s)[0] > 0:
+            return kind, s
+
+
+def gen_regions(rng, idx):
+    """the systematic stream: every pair of near-equal region names x every operation that reads or copies the region
+    (intersection, ==, the other pair methods, duplicate, the three splits, the grid, an object history), in turn"""
+    import itertools
+    combos = list(itertools.product(NEAR, REGION_OPS))
+    (cls, a, b), op = combos[idx % len(combos)]
+    if rng.random() < 0.5:
+        a, b = b, a
+    if op == "hist":
+        return gen_hist(rng, template="regions", names=(a, b), cls=cls)
+    r = gen_rect(rng, lattice=rng.random() < 0.9, region=a)
+    how = rng.choices(["near", "equal"], [3, 1])[0]
+    if op in PAIR_OPS:
+        if op == "eq" or rng.random() < 0.25:
+            s = dict(gen_rect(rng), cx=r["cx"], cy=r["cy"], w=r["w"], h=r["h"])      # the same box: only the names differ
+        else:
+            s = overlapping(rng, r)[1]
+        s["region"] = b if how == "near" else a
+        return {"op": op, "r": r, "s": s, "kind": f"rg/{cls}/{how}", "names": [a, b],
+                "eps": rng.choice([F(0), F(1, 64), F(1)]), "aeps": rng.choice([F(0), F(1, 1024), F(1, 2)])}
+    case = dict(q_params(rng, op, r), r=r, kind=f"rg/{cls}/one", names=[a, b])
+    if op == "grid":
+        case["nrows"], case["ncols"] = rng.choice([1, 2, 3, 4]), rng.choice([1, 2, 3, 4])
+    if op in ("split_h", "split_v") and rng.random() < 0.7:
+        case["x"] = (r["cx"] - r["w"] / 4) if op == "split_h" else (r["cy"] + r["h"] / 4)     # a cut strictly inside
     return case
 
 
@@ -404,6 +470,10 @@ def pow2(n):
 
 
 def to_coq(case, obs):
+    if case.get("names"):
+        a, b = case["names"]
+        rest = {k: v for k, v in case.items() if k != "names"}
+        return f"near_distinct {gstr(a)} {gstr(b)} && ({to_coq(rest, obs)})"
     if case["op"] == "hist":
         return hist_to_coq(case, obs)
     if case.get("co"):
@@ -678,11 +748,17 @@ def derived_value(r, s, d, which):
     return None
 
 
-def gen_hist(rng):
+def gen_hist(rng, template=None, names=None, cls=None):
     r0 = gen_rect(rng, lattice=rng.random() < 0.85)
     pool = [r0]
-    for _ in range(rng.choice([1, 1, 2, 3])):
-        pool.append(related(rng, rng.choice(pool))[1])
+    if template == "regions":
+        r0["region"] = names[0]
+        pool.append(dict(overlapping(rng, r0)[1], region=rng.choice(names)))
+        if rng.random() < 0.3:
+            pool.append(dict(overlapping(rng, rng.choice(pool))[1], region=rng.choice(names)))
+    else:
+        for _ in range(rng.choice([1, 1, 2, 3])):
+            pool.append(related(rng, rng.choice(pool))[1])
     cur = [dict(r) for r in pool]
     ops = []
 
@@ -727,6 +803,10 @@ def gen_hist(rng):
         elif kind == "flag":
             t = rng.choice(["fixed", "hard", "region"])
             v = rng.choice(["_", "dsp", "bram", "#"]) if t == "region" else rng.random() < 0.5
+            if t == "region" and rng.random() < 0.4:
+                # a name close to (or equal to) the region of another object of the pool
+                other = rng.choice(cur)["region"]
+                v = rng.choice(near_variants(other) + [other])
             ops.append({"t": t, "i": i, "v": v})
             cur[i][t] = v
         else:
@@ -774,8 +854,53 @@ def gen_hist(rng):
         if v is not None:
             cur.append(v)
 
-    template = rng.choice(["read-write-read", "read-write-read", "all-fields", "child", "random", "random", "coincide"])
-    if template == "coincide":
+    template = template or rng.choice(["read-write-read", "read-write-read", "all-fields", "child", "random", "random", "coincide"])
+    if template == "regions":
+        # region names close to each other written through the region setter between reads of the pair; returned
+        # rectangles (intersection, pieces of a split, a grid cell) inherit the name and are renamed independently
+        def rename(i, v):
+            ops.append({"t": "region", "i": i, "v": v})
+            cur[i]["region"] = v
+
+        def pair_reads(i, j):
+            for op in ["inter", "eq"] + rng.sample(["ov", "overlap", "inside", "touches", "inter"], 1):
+                a, b = (i, j) if rng.random() < 0.5 else (j, i)
+                ops.append(dict(q_params(rng, op, cur[a], cur[b]), t="q", i=a, j=b))
+        i, j = rng.sample(range(len(cur)), 2)
+        pair_reads(i, j)
+        for _ in range(rng.choice([1, 2, 3])):
+            who, ref = (i, j) if rng.random() < 0.6 else (j, i)
+            what = rng.choice(["other", "equal", "variant", "variant"])
+            rename(who, cur[ref]["region"] if what == "equal" else
+                   rng.choice([n for n in names if n != cur[ref]["region"]] or list(names)) if what == "other" else
+                   rng.choice(near_variants(cur[ref]["region"])))
+            if rng.random() < 0.3:
+                for f, v in (("cx", cur[ref]["cx"]), ("cy", cur[ref]["cy"]), ("w", cur[ref]["w"]), ("h", cur[ref]["h"])):
+                    write(who, f, v)                # the same box: only the names can tell them apart
+            pair_reads(i, j)
+        n0 = len(cur)
+        a_push_op = rng.choice(["split_h", "split_v", "split", "inter", "grid"])
+        d = q_params(rng, a_push_op, cur[i], cur[j])
+        if a_push_op == "grid":
+            d["nrows"], d["ncols"] = rng.choice([1, 2, 4]), rng.choice([1, 2, 4])
+        if a_push_op in ("split_h", "split_v"):
+            d["x"] = cur[i]["cx"] - cur[i]["w"] / 4 if a_push_op == "split_h" else cur[i]["cy"] + cur[i]["h"] / 4
+        d.update({"t": "push", "i": i, "which": rng.randrange(d["nrows"] * d["ncols"]) if a_push_op == "grid" else
+                  0 if a_push_op == "inter" else int(rng.random() < 0.5)})
+        if a_push_op == "inter":
+            d["j"] = j
+        ops.append(d)
+        v = derived_value(cur[i], cur[j], d, d["which"])
+        if v is not None:
+            cur.append(v)
+            k = n0
+            pair_reads(k, i)                        # the child carries the parent's name: it intersects its parent
+            rename(rng.choice([k, i]), rng.choice(near_variants(cur[i]["region"])))
+            pair_reads(k, i)
+            ops.append(dict(q_params(rng, "bbox", cur[k]), t="q", i=k))
+        else:
+            pair_reads(i, j)
+    elif template == "coincide":
         # read a pair, make one object coincide with the other in a point and a derived quantity, read the pair again
         i = rng.randrange(len(cur))
         j = rng.choice([k for k in range(len(cur)) if k != i])
@@ -836,7 +961,10 @@ def gen_hist(rng):
             what = rng.choices(["w", "q", "p"], [4, 5, 1])[0]
             a_write() if what == "w" else a_read() if what == "q" else a_push()
         a_read()
-    return {"op": "hist", "pool": pool, "ops": ops, "template": template}
+    case = {"op": "hist", "pool": pool, "ops": ops, "template": template}
+    if template == "regions":
+        case.update({"kind": f"rg/{cls}", "names": list(names)})
+    return case
 
 
 def run_hist_impl(case):
@@ -1093,7 +1221,15 @@ def run(ctx, out, replay=None):
                 "operand; all four fields of one object written in turn with a read after each; a returned rectangle and its parent "
                 "written independently; random mixes of writes (shift, snap against / onto another object, resize, flags, "
                 "value-preserving writes - by attribute, += or setter), reads (all 15 compared methods) and pushes of returned "
-                "rectangles")
+                "rectangles.  "
+                "Region-name stream: every pair of near-equal valid region names (differing only in letter case - dsp / DSP, A / a -, "
+                "by a trailing or leading underscore, a trailing digit, one a prefix of the other, '_' / '__' / '#', an inner '__', "
+                "look-alike characters, the 65th character) x every operation that reads or copies the region (intersection twice, "
+                "==, the other four pair methods, duplicate, the three splits, the grid, a history), in turn: the pair methods on "
+                "boxes with a positive common area or on the same box, under the two names of the pair (3 of 4) or under one name; "
+                "histories in which the region setter writes the other name / a near variant / the equal name between reads of the "
+                "pair and a returned rectangle is renamed independently of its source; region writes of every history also draw "
+                "near variants of the names present in the pool")
     cases = []
     if replay and "case" in replay:
         cases.append(fr.unjson(replay["case"]))
@@ -1107,6 +1243,11 @@ def run(ctx, out, replay=None):
     crng = __import__("random").Random(f"C18-coincide-{ctx.seed}")
     for k in range(int((420 if ctx.quick() else 4200) * mult)):
         cases.append(gen_coincide(crng, k))
+    grng = __import__("random").Random(f"C18-regions-{ctx.seed}")
+    ng = len(NEAR) * len(REGION_OPS)                 # every (pair of names) x (operation) once in the quick tier
+    for k in range(int((ng if ctx.quick() else 8 * ng) * mult)):
+        cases.append(gen_regions(grng, k))
+    out.extra["region_name_cases"] = int((ng if ctx.quick() else 8 * ng) * mult)
     nh = int((1200 if ctx.quick() else 12000) * mult)
     hrng = __import__("random").Random(f"C18-hist-{ctx.seed}")
     for _ in range(nh):
